@@ -40,7 +40,7 @@ def _run_task(args):
     st = core.Stats()
     st.errors.append({"why": "task crashed: %r" % (e,), "trace": traceback.format_exc()[-2000:],
                       "harness": hname, "cfg": core._jsonable(cfg)})
-  out = {k: getattr(st, k) for k in ("q", "solver_s", "paths", "decisions", "obligations",
+  out = {k: getattr(st, k) for k in ("max_q", "q", "solver_s", "paths", "decisions", "obligations",
                                      "discharged", "witnesses", "witness_skipped", "samples",
                                      "violations", "inconclusive", "errors", "excluded_paths",
                                      "maybe_infeasible")}
@@ -216,6 +216,7 @@ def report(a, mod, results, wall, seed, extra=None):
       "discharged": agg["discharged"],
       "queries": agg["q"],
       "solver_time_s": round(agg["solver_s"], 2),
+      "slowest_query_s": round(max([r.get("max_q", 0) for r in results] + [0]), 2),
       "paths_explored": agg["paths"],
       "paths_outside_precondition": agg["excluded_paths"],
       "paths_with_unknown_feasibility": agg["maybe_infeasible"],
@@ -245,9 +246,9 @@ def report(a, mod, results, wall, seed, extra=None):
     with open(os.path.join(VERIF, "evidence", pid + ".json"), "w") as f:
       json.dump(ev, f, indent=1, default=str)
 
-  print("%s %s: tasks=%d paths=%d obligations=%d discharged=%d queries=%s solver=%.1fs witnesses=%d wall=%.1fs"
+  print("%s %s: tasks=%d paths=%d obligations=%d discharged=%d queries=%s solver=%.1fs slowest_query=%.1fs witnesses=%d wall=%.1fs"
         % (pid, tier, len(results), agg["paths"], agg["obligations"], agg["discharged"],
-           agg["q"], agg["solver_s"], agg["witnesses"], wall))
+           agg["q"], agg["solver_s"], max([r.get("max_q", 0) for r in results] + [0]), agg["witnesses"], wall))
   if a.verbose:
     for r in sorted(results, key=lambda r: -r["wall_s"])[:25]:
       print("   %7.1fs paths=%-6d obl=%-7d %s %s" % (r["wall_s"], r["paths"], r["obligations"], r["harness"],
